@@ -28,6 +28,8 @@ def run(ctx):
                    "bad-txns-txouttotal-toolarge", "bad-txns-inputs-duplicate", "bad-cb-length", "bad-txns-prevout-null"):
         if not by_res[reason]:
             raise vflib.InfraError("vacuity: no row with expected result " + reason)
+    if not any(x["bulkIn"] > 32 and x["res"] == "bad-txns-inputs-duplicate" for x in rows) or not any(x["bulkIn"] > 32 and x["res"] == "ok" for x in rows):
+        raise vflib.InfraError("vacuity: no duplicate / duplicate-free row with many inputs sharing a txid")
     res = ctx.run_harness(binary, "table", rows)
     ctx.evaluations = int(res["summary"]["tests"]); ctx.traces = ctx.evaluations
     ctx.nontrivial = set(vflib.digest(x) for x in rows if x["ins"] and x["outs"])
